@@ -110,16 +110,19 @@ def record_sort_insert(args):
     for T in seqs:
         T = list(T)
         n = len(T)
-        src = build(T)
-        try:
-            with core.quiet():
-                src.sort()
-            r = ids(src)
-            rts = [int(round(o.timestamp.toAbsTime() - base)) for o in src.getObsList()]
-            rf = [int(round(src.getObsAnalyticalFeature("f", k))) for k in range(n)] if n else []
-            out.append({"id": id0 + len(out), "ev": "sort", "T": T, "r": r, "rts": rts, "rf": rf})
-        except Exception as e:
-            out.append({"id": id0 + len(out), "ev": "sort", "T": T, "r": [], "rts": [], "rf": [], "exc": repr(e)})
+        # sortRadix: the bucket sort on the time fields (growth), same acceptance; it allocates 60 000 buckets per call,
+        # so it is run on a fixed sixth of the sequences
+        for how in (("sort", "sortRadix") if (sum(T) + 5 * len(T)) % 6 == 0 else ("sort",)):
+            src = build(T)
+            try:
+                with core.quiet():
+                    getattr(src, how)()
+                r = ids(src)
+                rts = [int(round(o.timestamp.toAbsTime() - base)) for o in src.getObsList()]
+                rf = [int(round(src.getObsAnalyticalFeature("f", k))) for k in range(n)] if n else []
+                out.append({"id": id0 + len(out), "ev": "sort", "how": how, "T": T, "r": r, "rts": rts, "rf": rf})
+            except Exception as e:
+                out.append({"id": id0 + len(out), "ev": "sort", "how": how, "T": T, "r": [], "rts": [], "rf": [], "exc": repr(e)})
         if T == sorted(T):
             for t in times:
                 trk = build(T)
